@@ -82,6 +82,24 @@ def extract():
         ab = fn_body(whole[mm.start():match_brace(whole, mm.end() - 1)], "drop")
         abort_impl = bool(re.search(r"self\.0\.abort\s*\(\s*\)", ab))
 
+    # the handshake's path check: `request.uri().path() == self.expected` guarding the only `Ok(response)`,
+    # and the three branches of normalize_path
+    vimpl = impl_block(whole, r"impl\s+Callback\s+for\s+WebSocketPathValidator\s*\{")
+    vb = re.sub(r"\s+", " ", fn_body(vimpl, "on_request"))
+    path_exact = bool(re.search(r"if request\.uri\(\)\.path\(\) == self\.expected \{", vb)) and vb.count("Ok(response)") == 1 \
+        and bool(re.search(r"\} else \{ Err\(path_not_found_response\(request\)\) \}", vb))
+    nb = re.sub(r"\s+", " ", fn_body(whole, "normalize_path"))
+    norm_form = bool(re.fullmatch(
+        r' ?if path\.is_empty\(\) \|\| path == "\s*" \{ "\s*"\.to_string\(\) \} else if path\.starts_with\(\' \'\) \{ path\.trim_end_matches\(\' \'\)\.to_string\(\) \} else \{ format!\("\s*", path\.trim_end_matches\(\' \'\)\) \} ?', nb))
+    # the literals are blanked by strip(); read them from the raw source
+    raw = read(SRC)
+    rn = raw[raw.index("fn normalize_path"):]
+    rn = rn[:rn.index("\n}\n") + 3]
+    norm_lits = rn.count("'/'") == 3 and '"/".to_string()' in rn and 'path == "/"' in rn and 'format!("/{}"' in rn
+    # accept_and_serve: exactly one report per outcome
+    ab = re.sub(r"\s+", " ", fn_body(whole, "accept_and_serve"))
+    one_report = ab.count("self.report_error(") == 2 and "ConnectionError::Connection(err)" in ab and "ConnectionError::Handshake(err)" in ab
+
     src = read(SRC)
     facts = {
         "writerBeforeGuard": spawn.start() < guard.start(),
@@ -90,6 +108,9 @@ def extract():
         "hooksBeforeReader": max(h1.start(), h2.start()) < rd.start() and h1.start() < h2.start() and sig.start() < aw.start() and rd.start() < sig.start(),
         "cancelBeforeHooks": c.start() < l.start(),
         "abortOnDrop": wrapped and abort_impl and writer_var != "_",
+        "pathCheckExact": path_exact,
+        "normalizeThreeBranches": norm_form and norm_lits,
+        "oneErrorReportPerOutcome": one_report,
         "anchors": {"writer_spawn": f"{SRC}:{_line(src, off + spawn.start())}", "guard": f"{SRC}:{_line(src, off + guard.start())}",
                     "connect_loops": f"{SRC}:{_line(src, off + h1.start())},{_line(src, off + h2.start())}",
                     "reader": f"{SRC}:{_line(src, off + rd.start())}", "shutdown_signal": f"{SRC}:{_line(src, off + sig.start())}"},
@@ -107,7 +128,14 @@ def render(f):
          "def facts : Repe.Lifecycle.Facts where"]
     for k in FIELDS:
         L.append(f"  {k} := {b(f[k])}")
-    L += ["", "end Repe.Gen.Lifecycle"]
+    L += ["",
+          "/-- `WebSocketPathValidator::on_request` answers `Ok(response)` exactly under `request.uri().path() == self.expected` -/",
+          f"def pathCheckExact : Bool := {b(f['pathCheckExact'])}",
+          "/-- `normalize_path` has the three recognised branches (empty or \"/\" ↦ \"/\"; leading slash ↦ trim trailing; else prepend) -/",
+          f"def normalizeThreeBranches : Bool := {b(f['normalizeThreeBranches'])}",
+          "/-- `accept_and_serve` calls `report_error` once in the handshake-error arm and once under `if let Err(err)` of the serve result -/",
+          f"def oneErrorReportPerOutcome : Bool := {b(f['oneErrorReportPerOutcome'])}",
+          "", "end Repe.Gen.Lifecycle"]
     return "\n".join(L) + "\n"
 
 
